@@ -42,6 +42,13 @@ def rowOk (T : Tbl) (G : Gram) (bp : Nat → Nat) (K : Nat) (o : Nat) : Bool :=
           c == c' && eo == eo' && decide (j + 1 = G.top) && decide (bp j ≤ 2 * T.lbp o) &&
             G.lkind j == some .postfix && decide (T.lbp o ≤ K)
       | _ => false
+   | .arrow sr ar _ g =>
+      match G.led o with
+      | some (j, .arrow) =>
+          decide (j + 1 < G.top) && 2 * T.lbp o == bp j && ar == T.lbp o && G.lkind j == some .left &&
+            decide (T.lbp o ≤ K) && decide (T.lbp o ≤ sr) && decide (sr ≤ K) &&
+            (match T.nud g with | .group _ _ => true | _ => false) && decide (T.lbp g ≤ sr)
+      | _ => false
    | .none => true
    | .other => true) &&
   (match T.nud o with
@@ -140,6 +147,24 @@ theorem bracket_info (hc : Consistent T G bp K) {o c : Nat} {eo : Bool} {deny : 
     exact ⟨j, hg, h3, h4, h5, h6⟩
   · simp at h
 
+/-- what `rowOk` says about the arrow symbol: a left-associative level below the postfix level; the specifier is
+parsed with an rbp between the arrow's lbp and the largest lbp, which the opening parenthesis does not exceed -/
+theorem arrow_info (hc : Consistent T G bp K) {o sr ar g : Nat} {start : List Nat}
+    (hled : T.led o = .arrow sr ar start g) :
+    ∃ j, G.led o = some (j, .arrow) ∧ j + 1 < G.top ∧ 2 * T.lbp o = bp j ∧ ar = T.lbp o ∧ G.lkind j = some .left ∧
+      T.lbp o ≤ K ∧ T.lbp o ≤ sr ∧ sr ≤ K ∧ (∃ c eo, T.nud g = .group c eo) ∧ T.lbp g ≤ sr := by
+  have h := hc.rows o
+  simp only [rowOk, hled, Bool.and_eq_true] at h
+  obtain ⟨h, -⟩ := h
+  split at h
+  · rename_i j hg
+    simp only [Bool.and_eq_true, decide_eq_true_eq, beq_iff_eq] at h
+    obtain ⟨⟨⟨⟨⟨⟨⟨⟨h1, h2⟩, h3⟩, h4⟩, h5⟩, h6⟩, h7⟩, h8⟩, h9⟩ := h
+    refine ⟨j, hg, h1, h2, h3, h4, h5, h6, h7, ?_, h9⟩
+    cases hn : T.nud g <;> simp [hn] at h8
+    exact ⟨_, _, rfl⟩
+  · simp at h
+
 /-- what `rowOk` says about a prefix symbol: an ordinary prefix operator of a prefix level, or the unary lookup
 (a primary: its rbp is the largest binding power and its next-token check admits key specifiers only) -/
 theorem prefix_info (hc : Consistent T G bp K) {p r : Nat} {rhs : List Nat} (hnud : T.nud p = .prefix r rhs) :
@@ -192,6 +217,10 @@ theorem top_info {T : Tbl} {G : Gram} {bp : Nat → Nat} {K : Nat} (hc : Consist
     cases hl : T.led o <;> simp only [WFr, hl] at h
     obtain ⟨j, hg, hj, -, hk, -⟩ := hc.bracket_info hl
     right; right; simp [lvl, hg, hk, Tree.isTyped, Tree.isPre]
+  | arrow o l f a =>
+    cases hl : T.led o <;> simp only [WFr, hl] at h
+    obtain ⟨j, hg, hj, -, -, hk, -⟩ := hc.arrow_info hl
+    right; right; simp [lvl, hg, hk, Tree.isTyped, Tree.isPre]
 
 /-- left operand: the next operator's lbp is at most the closing rbp, hence its level is at most the
 level of the operand's top — unless the operand is closed by a type (typed operator) -/
@@ -227,6 +256,14 @@ theorem left_level {T : Tbl} {G : Gram} {bp : Nat → Nat} {K : Nat} (hc : Consi
     cases hl : T.led o <;> simp only [WFr, hl] at h
     obtain ⟨j', hg, hj', -⟩ := hc.bracket_info hl
     left; simp [lvl, hg]; omega
+  | arrow o l f a =>
+    cases hl : T.led o <;> simp only [WFr, hl] at h
+    obtain ⟨j', hg, hj', hb', rfl, -⟩ := hc.arrow_info hl
+    left
+    simp only [rclose, ledRbp, hl, leO] at hle
+    have hj'' : j' < G.top := by omega
+    have := hc.le_of_bp_le hj hj'' (by omega)
+    simpa [lvl, hg] using this
 
 /-- right operand / prefix operand: parsed by `expression(bp j)` with `j` not the postfix level, hence
 of a strictly higher level — unless it is a prefix-operator expression -/
@@ -263,6 +300,14 @@ theorem right_level {T : Tbl} {G : Gram} {bp : Nat → Nat} {K : Nat} (hc : Cons
     obtain ⟨j', hg, hj', -, hpk, -⟩ := hc.bracket_info hl
     left
     have : j ≠ j' := by intro he; subst he; exact hk hpk
+    simp [lvl, hg]; omega
+  | arrow o l f a =>
+    cases hl : T.led o <;> simp only [WFr, hl] at h
+    obtain ⟨j', hg, hj', hb', -⟩ := hc.arrow_info hl
+    left
+    simp only [lbpTop, gtO] at hgt
+    have hj'' : j' < G.top := by omega
+    have := hc.lt_of_bp_lt hj hj'' (by omega)
     simp [lvl, hg]; omega
 
 /-- a lookup key parsed by the model is a KeySpecifier -/
@@ -315,6 +360,12 @@ theorem key_spec {T : Tbl} {G : Gram} {bp : Nat → Nat} {K : Nat} (hc : Consist
     exfalso
     cases hl : T.led o <;> simp only [WFr, hl] at h
     obtain ⟨j', hg, hj', -, -, hb⟩ := hc.bracket_info hl
+    simp only [lbpTop, gtO] at hgt
+    omega
+  | arrow o l f a =>
+    exfalso
+    cases hl : T.led o <;> simp only [WFr, hl] at h
+    obtain ⟨j', hg, hj', -, -, -, hb, -⟩ := hc.arrow_info hl
     simp only [lbpTop, gtO] at hgt
     omega
 
@@ -417,5 +468,22 @@ theorem wfr_relaxed {T : Tbl} {G : Gram} {bp : Nat → Nat} {K : Nat} (hc : Cons
     · rcases he with ⟨rfl, heo⟩ | he
       · left; exact ⟨rfl, heo⟩
       · right; exact ihe he
+  | arrow o l f a ihl ihf iha =>
+    intro h
+    cases hl : T.led o <;> simp only [WFr, hl] at h
+    rename_i sr ar start g
+    obtain ⟨j, hg, hj, hb, rfl, hlk, -, hsr, -⟩ := hc.arrow_info hl
+    obtain ⟨hwl, hwf, hwa, hle, hgtf, hgta, -, -⟩ := h
+    have hL := left_level hc (j := j) (by omega) (by omega) l hwl hle
+    have hF := right_level hc (j := j) (by omega) (by rw [hlk]; simp) (by omega) f hwf hgtf
+    have hA := right_level hc (j := j) (by omega) (by rw [hlk]; simp) (by omega) a hwa hgta
+    have hLb : (decide (j ≤ lvl G l) || l.isTyped) = true := by
+      rcases hL with h1 | h1 <;> simp [h1]
+    have hFb : (f.isArrowSpec || (decide (j + 1 ≤ lvl G f) || f.isPre)) = true := by
+      rcases hF with h1 | h1 <;> simp [h1]
+    have hAb : (a.isGroup || (decide (j + 1 ≤ lvl G a) || a.isPre)) = true := by
+      rcases hA with h1 | h1 <;> simp [h1]
+    simp only [wf, hg, Bool.not_false, Bool.true_and, Bool.and_eq_true]
+    exact ⟨⟨⟨⟨⟨hLb, hFb⟩, hAb⟩, ihl hwl⟩, ihf hwf⟩, iha hwa⟩
 
 end EPV.Pratt
